@@ -118,22 +118,25 @@ def parse_unit(path):
                 m = re.match(r'strip-attrs\s+(\S+)\s*::\s*(.*)$', d)
                 unit['strip_attrs'].append({'names': m.group(1).split('|'), 'why': m.group(2)})
                 cur.append(ln)
+            elif d.startswith('derive-keep '):
+                unit['derive_keep'] = d.split()[1].split('|')
+                cur.append(ln)
             elif d.startswith('hoist-closure-patterns'):
                 unit['hoist_patterns'] = d.split('::', 1)[-1].strip() or 'closure parameter patterns hoisted into a let'
                 cur.append(ln)
             elif d.startswith('hoist-format-captures'):
                 unit['hoist_format'] = d.split('::', 1)[-1].strip() or 'format! inline captures hoisted to positional arguments'
                 cur.append(ln)
-            elif d.startswith('fn ') or d.startswith('item '):
+            elif d.startswith('fn ') or d.startswith('item ') or d.startswith('stub '):
                 if block is not None:
                     raise ExtractError('%s:%d: nested block' % (path, no))
                 unit['segments'].append(('text', cur))
                 cur = []
-                m = re.match(r'(fn|item)\s+(\S+)::(?:(struct|enum|fn)\s+)?(\w+)(?:\s+props=(\S+))?', d)
+                m = re.match(r'(fn|item|stub)\s+(\S+)::(?:(struct|enum|fn)\s+)?(\w+)(?:\s+props=(\S+))?(?:\s+proved-in=(\S+))?', d)
                 if not m:
                     raise ExtractError('%s:%d: bad block header' % (path, no))
                 kind = m.group(3) or 'fn'
-                block = {'file': m.group(2), 'kind': kind, 'name': m.group(4),
+                block = {'file': m.group(2), 'kind': kind, 'name': m.group(4), 'stub': m.group(1) == 'stub', 'proved_in': m.group(6),
                          'props': m.group(5).split(',') if m.group(5) else None, 'header': ln, 'lineno': no, 'lines': []}
             elif d == 'end':
                 if block is None:
@@ -243,7 +246,10 @@ def normalise(unit, text, log=None):
     while k < len(ts):
         if names and ts[k][1] == '#' and k + 2 < len(ts) and ts[k + 1][1] == '[' and ts[k + 2][1] in names:
             e = match_close(ts, k + 1)
-            edits.append((ts[k][2], ts[e][3], ''))
+            kept = []
+            if ts[k + 2][1] == 'derive' and unit.get('derive_keep'):
+                kept = [t[1] for t in ts[k + 3:e] if t[0] == 'ident' and t[1] in unit['derive_keep']]
+            edits.append((ts[k][2], ts[e][3], ('#[derive(%s)]' % ', '.join(kept)) if kept else ''))
             if log is not None:
                 log.append({'kind': 'strip-attr', 'text': ' '.join(text[ts[k][2]:ts[e][3]].split())[:80], 'why': names[ts[k + 2][1]]})
             k = e + 1
@@ -307,6 +313,36 @@ def normalise(unit, text, log=None):
     return ''.join(out)
 
 
+def contract_tokens(chunks):
+    """Tokens of the contract of an annotated fn: the inserted text before the body's opening brace
+    (verifier attributes excluded)."""
+    out = []
+    for kind, t in chunks:
+        if kind == 'real':
+            if '{' in texts(lex(t)):
+                break
+        elif kind == 'ins':
+            if t.strip().startswith('#[verifier::'):
+                continue
+            toks = texts(lex(t))
+            if '{' in toks and toks and toks[-1] == '{':  # the insertion that runs up to the body brace of a closure etc.
+                toks = toks[:-1]
+            out.extend(toks)
+    return out
+
+
+def check_stub_contract(unit_path, b, chunks):
+    other = os.path.join(os.path.dirname(unit_path), b['proved_in'] + '.rs')
+    ou = parse_unit(other)
+    for seg in ou['segments']:
+        if seg[0] == 'block' and not seg[1].get('stub') and seg[1]['file'] == b['file'] and seg[1]['name'] == b['name']:
+            oc = split_chunks('\n'.join(seg[1]['lines']))
+            if contract_tokens(oc) != contract_tokens(chunks):
+                raise ExtractError('%s: the contract of stub %s::%s differs from the one proved in unit %s' % (unit_path, b['file'], b['name'], b['proved_in']))
+            return
+    raise ExtractError('%s: stub %s::%s: no such fn block in unit %s' % (unit_path, b['file'], b['name'], b['proved_in']))
+
+
 def real_item_text(block):
     path = os.path.join(REPO_SRC, block['file'])
     if not os.path.exists(path):
@@ -318,7 +354,20 @@ def real_item_text(block):
         raise LostAnchor('%s::%s: %s' % (block['file'], block['name'], e))
     if span is None:
         raise LostAnchor('%s::%s %s not found' % (block['file'], block['kind'], block['name']))
-    return src[span[0]:span[1]], src.count('\n', 0, span[0]) + 1
+    text = src[span[0]:span[1]]
+    if block.get('stub'):
+        # a stub keeps only the real signature: the callee is proved against its contract in another unit
+        ts = lex(text)
+        from rslex import match_close
+        k = 0
+        while k < len(ts):
+            if ts[k][1] in '([':
+                k = match_close(ts, k)
+            elif ts[k][1] == '{':
+                break
+            k += 1
+        text = text[:ts[k][2]] + '{ unimplemented!() }'
+    return text, src.count('\n', 0, span[0]) + 1
 
 
 def _binds_prev(ins_text):
@@ -436,6 +485,8 @@ def generate(unit_path, out_path, spec_root=None):
         text = '\n'.join(b['lines'])
         chunks = split_chunks(text)
         edits = audit_edits(unit, chunks, '%s:%d %s' % (unit_path, b['lineno'], name))
+        if b.get('stub') and b.get('proved_in'):
+            check_stub_contract(unit_path, b, chunks)
         try:
             real, real_line = real_item_text(b)
             nlog = []
@@ -448,12 +499,12 @@ def generate(unit_path, out_path, spec_root=None):
             continue
         base = erased_tokens(chunks)
         cur = texts(lex(real))
-        info = {'name': name, 'kind': b['kind'], 'props': b['props'] or unit['props'], 'repo_line': real_line,
+        info = {'name': name, 'kind': 'stub' if b.get('stub') else b['kind'], 'props': b['props'] or unit['props'], 'repo_line': real_line,
                 'sha256': hashlib.sha256(real.encode()).hexdigest()[:16], 'tokens': len(cur), 'changed': False,
                 'insertions': sum(1 for e in edits if e['kind'] not in ('replace', 'delete')),
                 'replacements': [e for e in edits if e['kind'] in ('replace', 'delete')],
                 'unclassified_insertions': [e['text'] for e in edits if e['kind'] == 'unclassified'],
-                'normalisations': nlog}
+                'normalisations': nlog, 'proved_in': b.get('proved_in')}
         emit([b['header']], None)
         if base == cur:
             body = resolve(chunks)
